@@ -566,6 +566,32 @@ func (m *Model) RunScope(s *Sink, rule string) {
 		{"evalComponentStmt", []string{".Block"}},
 	} {
 		fn := m.Method("evaluator", "Evaluator", st.fn)
+		s := s
+		if st.fn == "evalIfStmt" {
+			// decided by case evaluation (rule_ifcases.go); the structural reading is the diagnosis / the fallback
+			outer, sub := s, NewSink()
+			s = sub
+			cr := m.ifCases()
+			defer func() {
+				switch {
+				case cr.decided && cr.scopeSeen && len(cr.badScope) == 0 && len(cr.bad) == 0:
+					outer.OK(rule, "@if by cases|conditions in the statement's scope, the chosen block in a fresh enclosed scope", cr.evalPos,
+						"case evaluation of Eval on an abstract @if statement (%d cases): every condition is evaluated in the incoming scope, the chosen block in a new scope whose outer scope is the incoming one", cr.cases)
+					for _, o := range sub.Obls {
+						if o.Status == Violated || o.Status == Undecided {
+							outer.OK(o.Rule, o.Key, o.Pos, "the code does not have the shape this structural reading expects (%s); decided by case evaluation instead", o.Detail)
+						} else {
+							outer.Obls = append(outer.Obls, o)
+						}
+					}
+				case cr.decided && len(cr.badScope) > 0:
+					outer.Violation(rule, "@if by cases|conditions in the statement's scope, the chosen block in a fresh enclosed scope", cr.evalPos, "evaluating an @if statement with %s (%d such cases)", cr.badScope[0], len(cr.badScope))
+					outer.Obls = append(outer.Obls, sub.Obls...)
+				default:
+					outer.Obls = append(outer.Obls, sub.Obls...)
+				}
+			}()
+		}
 		if fn == nil {
 			s.Undecided(rule, st.fn, "-", "%s not found", st.fn)
 			continue
@@ -583,6 +609,9 @@ func (m *Model) RunScope(s *Sink, rule string) {
 				okEnv := false
 				if nc, ok := envArg.(*ssa.Call); ok && nc.Call.StaticCallee() == newEnclosed && nc.Call.Args[0] == ssa.Value(envParam) {
 					okEnv = true
+				}
+				if !okEnv && m.isFreshScopeOf(envArg, envParam, newEnclosed, 0) {
+					okEnv = true // built by a helper that returns NewEnclosedEnv(its scope parameter) on every successful return
 				}
 				if okEnv {
 					s.OK(rule, key, m.InstrPos(c), "the environment is NewEnclosedEnv(env) created in this function: assignments inside do not leak out")
@@ -965,4 +994,57 @@ func (m *Model) envCases(s *Sink, rule string, set *ssa.Function) {
 	emit("the name loop is refused", "case evaluation: with key \"loop\" nothing is stored", "reserved", "a template can overwrite the loop object")
 	emit("a value of another type is refused", "case evaluation over {absent, nil, same type, other type} x {same, middle, outermost scope}: stored exactly in the first three", "typed", "a visible variable can be silently retyped (or a legal assignment is refused)")
 	emit("writes only the innermost scope", "case evaluation: the middle and outermost scopes are unchanged after every Set", "innermost", "an assignment inside a block changes what the enclosing block sees afterwards")
+}
+
+// isFreshScopeOf: v is a scope created by NewEnclosedEnv(env) — directly, or by a module helper that is handed env and
+// returns such a scope at that result position on every return that yields one (nil results are failure returns).
+func (m *Model) isFreshScopeOf(v ssa.Value, env ssa.Value, newEnclosed *ssa.Function, d int) bool {
+	if d > 3 {
+		return false
+	}
+	idx := 0
+	if ex, ok := v.(*ssa.Extract); ok {
+		idx = ex.Index
+		v = ex.Tuple
+	}
+	switch x := v.(type) {
+	case *ssa.Phi:
+		for _, e := range x.Edges {
+			if !m.isFreshScopeOf(e, env, newEnclosed, d+1) {
+				return false
+			}
+		}
+		return len(x.Edges) > 0
+	case *ssa.Call:
+		sc := x.Call.StaticCallee()
+		if sc == nil {
+			return false
+		}
+		if sc == newEnclosed {
+			return idx == 0 && len(x.Call.Args) == 1 && x.Call.Args[0] == env
+		}
+		if !m.InModule(sc) || sc.Blocks == nil {
+			return false
+		}
+		var inner ssa.Value
+		for i, a := range x.Call.Args {
+			if a == env && i < len(sc.Params) {
+				if inner != nil {
+					return false
+				}
+				inner = sc.Params[i]
+			}
+		}
+		if inner == nil {
+			return false
+		}
+		rs := m.returnedAt(sc, idx)
+		for _, r := range rs {
+			if !m.isFreshScopeOf(r, inner, newEnclosed, d+1) {
+				return false
+			}
+		}
+		return len(rs) > 0
+	}
+	return false
 }
